@@ -349,6 +349,9 @@ def _job(idx):
     log.append(("z3-refute", f["result"], round(f["time"], 3)))
     if f["result"] == "unsat":
         return proved("z3-ground")
+    if f["result"] == "sat" and getattr(ob, "expect_refuted", False):
+        out["verdict"], out["model"], out["probes"] = "refuted", f.get("model", {}), f.get("probes", {})
+        return out
     # a candidate refutation (or nothing): give prove mode its full budget, then cvc5, before believing it
     r2 = _check(full, budget_ms if f["result"] != "sat" else max(first_ms, budget_ms // 3))
     log.append(("z3-prove-2", r2["result"], round(r2["time"], 3)))
